@@ -5,7 +5,9 @@ paths relative to the search path entry, so that it can be stored in a replay fi
 """
 import os
 
-POOL = ['a', 'b', 'c', 'pkg', 'mod', '_u', 'x_y', 'A1', 'zz9', 'util_', 'ns', '__main__']
+POOL = ['a', 'b', 'c', 'pkg', 'mod', '_u', 'x_y', 'A1', 'zz9', 'util_', 'ns', '__main__',
+        # ordinary names that merely end / start with the special ones
+        'conf__init__', 'x__main__', '__init__x', '__main__2']
 KINDS = ['mod', 'mod', 'pkg', 'pkg', 'pkg', 'bare', 'pkg+mod', 'bare+mod', 'plain', 'txt']
 
 
